@@ -142,3 +142,26 @@ def get(relpath, qualname, **kw):
     ex = extract(relpath, qualname, **kw)
     EXTRACTED_LOG[f"{relpath}:{qualname}"] = (ex.text, ex.sha)
     return ex
+
+
+def base_env(relpath, keep=()):
+    """Environment for an extracted function: the NON-callable module-level names (constants such as DONE, STAGING_SUFFIX,
+    MAX_TRACEBACK_DEPTH, GATHER_LOOKUP, plain data) of the real module in the tree under test, evaluated natively (R1), plus the
+    callables named in `keep`.  Everything else must be supplied by the sidecar (stubs / proxies / inlined extractions)."""
+    import importlib
+    import types
+
+    from .z3env import ensure_repo_first
+
+    ensure_repo_first()
+    modname = "uberjob." + relpath[:-3].replace("/", ".")
+    if modname.endswith(".__init__"):
+        modname = modname[: -len(".__init__")]
+    mod = importlib.import_module(modname)
+    env = {}
+    for k, v in vars(mod).items():
+        if k.startswith("__"):
+            continue
+        if k in keep or not (callable(v) or isinstance(v, types.ModuleType)):
+            env[k] = v
+    return env
